@@ -2212,7 +2212,48 @@ def _find_seq_fuzzy(toks, pat, max_diff=2):
     return res
 
 
+def _rw_replace_holes(toks, old, new, rep, expect):
+    """`replace` whose pattern has identifier holes `$1`, `$2`, ...: each hole matches one plain identifier (the same hole the
+    same identifier) and is substituted into the replacement text -- so a rewrite of a std expression survives the renaming of
+    the locals it mentions"""
+    pat = pat_tokens(re.sub(r"\$(\d)", r"VERIFHOLE\1", old))
+    sigs = [i for i, t in enumerate(toks) if t.kind not in (WS, COMMENT, "raw")]
+    m = len(pat)
+    ident = re.compile(r"^[A-Za-z_]\w*$")
+    hits = []
+    for a in range(0, len(sigs) - m + 1):
+        bind = {}
+        ok = True
+        for b in range(m):
+            tt = toks[sigs[a + b]].text
+            if pat[b].startswith("VERIFHOLE"):
+                if not ident.match(tt) or tt in _KW or bind.setdefault(pat[b], tt) != tt:
+                    ok = False; break
+            elif tt != pat[b]:
+                ok = False; break
+        if ok:
+            hits.append((sigs[a], sigs[a + m - 1], bind))
+    if not hits:
+        if expect != 0:
+            rep.append(("LOST", f"replace: text not found (nothing rewritten): {old!r}"))
+        return toks
+    out = list(toks)
+    last_start = None
+    for (a0, b0, bind) in reversed(hits):
+        if last_start is not None and b0 >= last_start:
+            continue
+        if any(getattr(t, "mark", None) for t in out[a0:b0 + 1]):
+            raise TemplateError(f"replace {old!r} spans a loop header; not supported")
+        txt = re.sub(r"\$(\d)", lambda mm: bind.get("VERIFHOLE" + mm.group(1), mm.group(0)), new)
+        out[a0:b0 + 1] = [T("raw", txt)]
+        last_start = a0
+    rep.append(("replace", f"{old!r} => {new!r} x{len(hits)} (holes: {sorted(set(v for h in hits for v in h[2].values()))})"))
+    return out
+
+
 def _rw_replace_any(toks, old, new, rep, expect):
+    if re.search(r"\$\d", old):
+        return _rw_replace_holes(toks, old, new, rep, expect)
     pat = pat_tokens(old)
     hits = _find_seq_any(toks, pat)
     if not hits:
